@@ -92,3 +92,72 @@ package pubsub
 //@   ensures signals: result == nil ==> notified(q.dataAvailable) == old(notified(q.dataAvailable)) + 1
 //@   ensures closed-unchanged: q.closed == lin(q.closed)
 //@   ensures released: !held(q.queueMu)
+
+//@ func (*rpcQueue).Push
+//@   property C15
+//@   modifies monitor(rpcQueue.queueMu)
+//@   at call push assert normal-class: $arg0 == q && $arg1 == rpc && !$arg2 && $arg3 == block
+//@   ensures once: calls(push) == old(calls(push)) + 1
+
+//@ func (*rpcQueue).UrgentPush
+//@   property C15
+//@   modifies monitor(rpcQueue.queueMu)
+//@   at call push assert urgent-class: $arg0 == q && $arg1 == rpc && $arg2 && $arg3 == block
+//@   ensures once: calls(push) == old(calls(push)) + 1
+
+//@ func newRpcQueue
+//@   property C15
+//@   modifies nothing
+//@   ensures fresh: fresh(result)
+//@   ensures empty: len(result.queue.normal) == 0 && len(result.queue.priority) == 0 && !result.closed
+//@   ensures size: result.maxSize == maxSize
+//@   ensures inv: maxSize >= 0 ==> rqlen(result) <= result.maxSize && qsep(result.queue)
+
+//@ func (*rpcQueue).Pop
+//@   property C15
+//@   modifies monitor(rpcQueue.queueMu)
+//@   loop 1 invariant held: held(q.queueMu) && !q.closed && rqlen(q) <= q.maxSize && qsep(q.queue)
+//@   loop 1 invariant same: qsame(q)
+//@   loop 1 invariant nosignal: notified(q.spaceAvailable) == old(notified(q.spaceAvailable))
+//@   ensures errs: err == nil || err == ErrQueueClosed || err == ErrQueueCancelled
+//@   ensures closed: lin(q.closed) ==> result0 == nil && err == ErrQueueClosed
+//@   ensures closed-only: err == ErrQueueClosed ==> lin(q.closed)
+//@   ensures cancelled: !lin(q.closed) && lin(rqlen(q)) == 0 ==> result0 == nil && err == ErrQueueCancelled
+//@   ensures cancelled-only: err == ErrQueueCancelled ==> !lin(q.closed) && lin(rqlen(q)) == 0 && ctxdone(ctx)
+//@   ensures error-unchanged: err != nil ==> qsame(q)
+//@   ensures ok: !lin(q.closed) && lin(rqlen(q)) > 0 ==> err == nil
+//@   ensures urgent-first: err == nil && lin(len(q.queue.priority)) > 0 ==> result0 == lin(q.queue.priority[0]) &&
+//@        len(q.queue.priority) == lin(len(q.queue.priority)) - 1 &&
+//@        (forall i int :: 0 <= i && i < len(q.queue.priority) ==> q.queue.priority[i] == lin(q.queue.priority[i+1])) &&
+//@        len(q.queue.normal) == lin(len(q.queue.normal)) &&
+//@        (forall i int :: 0 <= i && i < len(q.queue.normal) ==> q.queue.normal[i] == lin(q.queue.normal[i]))
+//@   ensures normal-next: err == nil && lin(len(q.queue.priority)) == 0 ==> result0 == lin(q.queue.normal[0]) &&
+//@        len(q.queue.normal) == lin(len(q.queue.normal)) - 1 && len(q.queue.priority) == 0 &&
+//@        (forall i int :: 0 <= i && i < len(q.queue.normal) ==> q.queue.normal[i] == lin(q.queue.normal[i+1]))
+//@   ensures signals: err == nil ==> notified(q.spaceAvailable) == old(notified(q.spaceAvailable)) + 1
+//@   ensures closed-unchanged: q.closed == lin(q.closed)
+//@   ensures released: !held(q.queueMu)
+
+// The callback registered with context.AfterFunc runs on its own goroutine when Pop's context
+// is cancelled. The no-lost-wake-up rule (cond ... notifies-under queueMu) applies to it.
+//@ func (*rpcQueue).Pop$1
+//@   property C15
+//@   modifies monitor(rpcQueue.queueMu)
+//@   ensures wakes: notified(q.dataAvailable) == old(notified(q.dataAvailable)) + 1
+//@   ensures released: !held(q.queueMu)
+
+//@ func (*rpcQueue).Close
+//@   property C15
+//@   modifies monitor(rpcQueue.queueMu)
+//@   ensures closed: q.closed
+//@   ensures contents: len(q.queue.normal) == lin(len(q.queue.normal)) && len(q.queue.priority) == lin(len(q.queue.priority)) &&
+//@        (forall i int :: 0 <= i && i < len(q.queue.normal) ==> q.queue.normal[i] == lin(q.queue.normal[i])) &&
+//@        (forall i int :: 0 <= i && i < len(q.queue.priority) ==> q.queue.priority[i] == lin(q.queue.priority[i]))
+//@   ensures wakes-poppers: notified(q.dataAvailable) == old(notified(q.dataAvailable)) + 1
+//@   ensures wakes-pushers: notified(q.spaceAvailable) == old(notified(q.spaceAvailable)) + 1
+//@   ensures released: !held(q.queueMu)
+
+// Test-only schedule point (hooks_verif.go); the production build has an empty body.
+//@ func verifBeforeWait
+//@   trusted test hook: empty function in builds without the verif tag
+//@   modifies nothing
